@@ -107,11 +107,11 @@ def extract(repo="/repo", config="dev", force=False):
             raise InfraError("fact extraction failed (cargo exit %s, fact file %s)" % (
                 p.returncode, "present" if os.path.exists(tmp_out) else "missing"))
         os.replace(tmp_out, out)
-        # keep the cache small: only the eight most recent fact files of this config stay (several trees may be checked at the
+        # keep the cache small: only the sixteen most recent fact files of this config stay (several trees may be checked at the
         # same time — scratch copies in the self-test — and must not evict one another between extraction and load)
         olds = sorted((f for f in os.listdir(CACHE) if f.startswith("facts-%s-" % config) and f.endswith(".json") and os.path.join(CACHE, f) != out),
                       key=lambda f: os.path.getmtime(os.path.join(CACHE, f)), reverse=True)
-        for f in olds[7:]:
+        for f in olds[15:]:
             try:
                 os.remove(os.path.join(CACHE, f))
             except OSError:
